@@ -578,7 +578,7 @@ func main() {
 	configs := allConfigs()
 
 	// generated documents
-	nGen := r.Pick(60, 240)
+	nGen := r.Pick(60, 180)
 	for i := 0; i < nGen; i++ {
 		doc, di := genDoc(r.Rand, genOpts{allowHazards: true})
 		for _, d := range di.desc {
@@ -617,16 +617,29 @@ func main() {
 	// sparse numbering: one or several objects (catalog, page tree root, a page, a font, a content
 	// stream, the info dict, a free entry) carry numbers >= 65535 in a file of a few KiB, so that
 	// object numbers exceed every byte offset; every configuration
-	nSparse := r.Pick(16, 80)
+	// (pdfcpu walks 0..Size several times: a document numbered up to 2^24 takes about a minute per
+	// configuration, so 2^24 and 2^24+1 appear in the thorough tier only, once, under the two
+	// xref stream configurations; 65535 / 65536 / 70000 / 100000 everywhere)
+	fastNumbers := []int{65535, 65536, 70000, 100000}
+	sparseConfigs := configs
+	if !r.Thorough() {
+		sparseConfigs = []wconf{configs[0], configs[1], configs[2], configs[5], configs[11]}
+	}
+	nSparse := r.Pick(8, 40)
 	for i := 0; i < nSparse; i++ {
 		kind := sparseKinds[i%len(sparseKinds)]
-		nrs := []int{sparseNumbers[(i/len(sparseKinds)+i)%len(sparseNumbers)]}
+		nrs := []int{fastNumbers[(i/len(sparseKinds)+i)%len(fastNumbers)]}
 		if kind == "several" {
-			nrs = sparseNumbers
+			nrs = fastNumbers
 		}
 		doc, di := genDoc(r.Rand, genOpts{sparse: kind, sparseNr: nrs})
 		r.Count("gen:sparse:" + kind)
-		runDoc(r, docCase{name: fmt.Sprintf("sparse-%d", i), doc: doc, desc: strings.Join(di.desc, ","), maxObjs: 100000}, configs)
+		runDoc(r, docCase{name: fmt.Sprintf("sparse-%d", i), doc: doc, desc: strings.Join(di.desc, ","), maxObjs: 100000}, sparseConfigs)
+	}
+	if r.Thorough() {
+		doc, di := genDoc(r.Rand, genOpts{sparse: "several", sparseNr: []int{1 << 24, 1<<24 + 1, 70000}})
+		r.Count("gen:sparse:2^24")
+		runDoc(r, docCase{name: "sparse-2^24", doc: doc, desc: strings.Join(di.desc, ","), maxObjs: 100000}, []wconf{configs[1], configs[2]})
 	}
 
 	// corpus
@@ -658,7 +671,7 @@ func main() {
 		runDoc(r, docCase{name: filepath.Base(f), doc: b, desc: "corpus", maxObjs: r.Pick(1500, 6000)}, cs)
 		if len(b) <= r.Pick(300<<10, 1<<20) {
 			// the same document with one object moved to a very large number, xref stream output
-			to := sparseNumbers[i%len(sparseNumbers)]
+			to := []int{65536, 70000, 100000}[i%3]
 			scs := []wconf{configs[1], configs[2], configs[(i*3)%len(configs)]}
 			r.Count("corpus-file-sparse")
 			runDoc(r, docCase{name: filepath.Base(f) + "+sparse", doc: b, desc: fmt.Sprintf("corpus, sparse which=%d to=%d", i%4, to),
